@@ -77,6 +77,37 @@ fn hook_roundtrip(variant: u32, pre: &[u8], tail: &[u8]) -> Option<String> {
     }
 }
 
+/// really stream `n` patterned bytes into a fresh hasher (update calls of varying sizes), read the
+/// state back through the hook: (chaining value as 8 big-endian words, t0, t1, buffered bytes)
+fn real_stream(variant: u32, n: u64) -> (Vec<u8>, u128, u128, Vec<u8>) {
+    macro_rules! go {
+        ($t:ident) => {{
+            let mut s = $t::default();
+            let chunk: Vec<u8> = (0..(1usize << 20)).map(|i| (i as u32).wrapping_mul(2654435761).to_le_bytes()[3] ^ (i as u8)).collect();
+            let sizes = [1usize << 20, 65537, 4096, 63, 1, 64, 129, 1 << 20];
+            let (mut done, mut k) = (0u64, 0usize);
+            while done < n {
+                let m = (sizes[k % sizes.len()] as u64).min(n - done) as usize;
+                s.update(&chunk[..m]);
+                done += m as u64;
+                k += 1;
+            }
+            let (h, t, content, pos) = s.verif_get_state();
+            let mut hb = Vec::new();
+            for i in 0..8 {
+                hb.extend_from_slice(&h[i / 4][i % 4].to_be_bytes());
+            }
+            (hb, t.0 as u128, t.1 as u128, content[..pos].to_vec())
+        }};
+    }
+    match variant {
+        224 => go!(Blake224),
+        256 => go!(Blake256),
+        384 => go!(Blake384),
+        _ => go!(Blake512),
+    }
+}
+
 struct Case {
     coq: String,
     json: String,
@@ -206,7 +237,7 @@ fn hook_case(variant: u32, h: &[u8], t0: u128, t1: u128, buffered: &[u8], tail: 
 fn main() {
     let argv: Vec<String> = std::env::args().collect();
     if argv.len() < 2 || argv[1] != "blake" {
-        eprintln!("usage: h_blake blake --seed N --shards K --out DIR [--tier quick|thorough]");
+        eprintln!("usage: h_blake blake --seed N --shards K --out DIR [--tier quick|thorough --streams all|hook --real N]");
         std::process::exit(2);
     }
     let a = Args::parse(&argv[2..]);
@@ -214,13 +245,38 @@ fn main() {
     let shards = a.u64("shards", 16) as usize;
     let out = a.str("out", "/tmp/blake_cases");
     let thorough = a.str("tier", "quick") == "thorough";
+    let hook_only = a.str("streams", "all") == "hook";
+    let real = a.u64("real", 0);
     let mut rng = Rng::new(seed ^ 0xb1a4e);
     let mut cases: Vec<Case> = Vec::new();
     let mut direct: Vec<String> = Vec::new();
     let variants = [224u32, 256, 384, 512];
     let (mut n_sweep, mut n_sparse, mut n_hook, mut n_rt, mut n_updates) = (0usize, 0usize, 0usize, 0usize, 0usize);
     let mut max_len = 0usize;
+    let (mut n_real, mut real_bytes) = (0usize, 0u64);
 
+    // 0. C17: really stream up to just below 2^32 bits (512 MiB) into Blake224/256, read the state
+    //    back (the counter must be exactly the bits compressed so far), then cross the boundary
+    for k in 0..real {
+        let v = if k % 2 == 0 { 256u32 } else { 224 };
+        let below = [64u64, 1, 129, 200, 65, 128][k as usize % 6];
+        let n = (1u64 << 29) - below;
+        let (h, t0, t1, buffered) = real_stream(v, n);
+        let bits = (n / 64) * 512;
+        if t0 != (bits & 0xffff_ffff) as u128 || t1 != (bits >> 32) as u128 || buffered.len() as u64 != n % 64 {
+            direct.push(format!(
+                "{{\"kind\":\"counter after really streaming\",\"variant\":{},\"streamed\":{},\"t0\":\"{:x}\",\"t1\":\"{:x}\",\"pos\":{}}}",
+                v, n, t0, t1, buffered.len()
+            ));
+        }
+        let tail_len = below as usize + [1usize, 64, 0, 56, 120][k as usize % 5];
+        let tail = content(&mut rng, k, tail_len);
+        cases.push(hook_case(v, &h, t0, t1, &buffered, &tail));
+        n_real += 1;
+        real_bytes += n;
+    }
+
+    if !hook_only {
     // 1. every length 0 ..= 3*block+1 (every residue, 55/56 and 111/112, 0, exact multiples)
     for &v in &variants {
         let block = if v <= 256 { 64 } else { 128 };
@@ -283,6 +339,7 @@ fn main() {
             n_updates += 1;
         }
     }
+    } // !hook_only
     // 3. hook H2: arbitrary chaining value, counter next to a word boundary, tail crossing it
     let per_b = if thorough { 40 } else { 5 };
     for &v in &variants {
@@ -391,7 +448,7 @@ fn main() {
         samples.push(c.json.clone());
     }
     println!(
-        "{{\"evaluations\":{},\"distinct_nontrivial\":{},\"length_sweep\":{},\"sparse_long\":{},\"multi_update\":{},\"max_len\":{},\"hook_state_cases\":{},\"hook_roundtrips\":{},\"variants\":[224,256,384,512],\"direct_failures\":[{}],\"samples\":[{}]}}",
+        "{{\"evaluations\":{},\"distinct_nontrivial\":{},\"length_sweep\":{},\"sparse_long\":{},\"multi_update\":{},\"max_len\":{},\"hook_state_cases\":{},\"hook_roundtrips\":{},\"real_stream_cases\":{},\"really_streamed_bytes\":{},\"variants\":[224,256,384,512],\"direct_failures\":[{}],\"samples\":[{}]}}",
         cases.len(),
         distinct.len(),
         n_sweep,
@@ -400,6 +457,8 @@ fn main() {
         max_len,
         n_hook,
         n_rt,
+        n_real,
+        real_bytes,
         direct.join(","),
         samples.join(",")
     );
